@@ -1,0 +1,153 @@
+//! Verification hooks (cargo feature `verif`, off by default).
+//!
+//! A thread-local recorder that external verification harnesses can arm to
+//! observe (a) every random draw made by the framework (the "tape"), (b) a log
+//! of the framework's internal steps, and (c) the number of machine steps of a
+//! call. Nothing is recorded unless a harness has armed the recorder, so the
+//! feature is inert when merely compiled in. The hooks only observe: they
+//! never change what the framework computes.
+
+use std::cell::RefCell;
+
+/// Tape entry tags.
+pub const TAPE_U: u64 = 0; // uniform f32 draw of State::sample_state (bits of r)
+pub const TAPE_D: u64 = 1; // raw result of Dist::dist_sample (f64 bits)
+
+/// Log entry tags.
+pub const LOG_TRANS: u64 = 0; // (mi, event): entry into transition
+pub const LOG_NEXT: u64 = 1; // (mi, sampled next state)
+pub const LOG_DEC: u64 = 2; // (mi, 0): decrement_limit
+pub const LOG_LIMIT: u64 = 3; // (mi, 0): LimitReached raised
+pub const LOG_SCHED: u64 = 4; // (mi, state): schedule_action
+pub const LOG_SIGSET: u64 = 5; // (mi, 0): machine transitioned to STATE_SIGNAL
+pub const LOG_SIGDELIVER: u64 = 6; // (mi, 0): Signal delivered to mi
+pub const LOG_CZERO: u64 = 7; // (mi, 0): CounterZero raised
+
+#[derive(Default, Debug, Clone)]
+pub struct Recorder {
+    pub armed: bool,
+    pub tape: Vec<(u64, u64)>,
+    pub log: Vec<(u64, u64, u64)>,
+    pub steps: u64,
+    /// if non-zero, panic when `steps` exceeds it (contains a lost recursion guard)
+    pub step_budget: u64,
+    in_dist_sample: bool,
+}
+
+thread_local! {
+    static REC: RefCell<Recorder> = RefCell::new(Recorder::default());
+}
+
+/// Arm the recorder (clearing it) with an optional step budget (0 = none).
+pub fn arm(step_budget: u64) {
+    REC.with(|r| {
+        let mut r = r.borrow_mut();
+        *r = Recorder::default();
+        r.armed = true;
+        r.step_budget = step_budget;
+    });
+}
+
+/// Disarm and clear the recorder.
+pub fn disarm() {
+    REC.with(|r| *r.borrow_mut() = Recorder::default());
+}
+
+/// Take what has been recorded so far (tape, log, steps), leaving the
+/// recorder armed and empty.
+pub fn take() -> (Vec<(u64, u64)>, Vec<(u64, u64, u64)>, u64) {
+    REC.with(|r| {
+        let mut r = r.borrow_mut();
+        let t = std::mem::take(&mut r.tape);
+        let l = std::mem::take(&mut r.log);
+        let s = r.steps;
+        r.steps = 0;
+        r.in_dist_sample = false;
+        (t, l, s)
+    })
+}
+
+pub(crate) fn tape(tag: u64, bits: u64) {
+    REC.with(|r| {
+        let mut r = r.borrow_mut();
+        if r.armed {
+            r.tape.push((tag, bits));
+        }
+    });
+}
+
+pub(crate) fn log(tag: u64, a: u64, b: u64) {
+    let over = REC.with(|r| {
+        let mut r = r.borrow_mut();
+        if !r.armed {
+            return false;
+        }
+        r.log.push((tag, a, b));
+        if tag == LOG_TRANS {
+            r.steps += 1;
+            if r.step_budget != 0 && r.steps > r.step_budget {
+                return true;
+            }
+        }
+        false
+    });
+    if over {
+        panic!("verif: step budget exceeded");
+    }
+}
+
+/// Re-entrancy guard used by the hook in `Dist::dist_sample`: returns true
+/// exactly when the recorder is armed and we are not already inside the hooked
+/// call, and marks that we are.
+pub(crate) fn dist_sample_enter() -> bool {
+    REC.with(|r| {
+        let mut r = r.borrow_mut();
+        if r.armed && !r.in_dist_sample {
+            r.in_dist_sample = true;
+            true
+        } else {
+            false
+        }
+    })
+}
+
+pub(crate) fn dist_sample_leave(raw: f64) {
+    REC.with(|r| {
+        let mut r = r.borrow_mut();
+        r.in_dist_sample = false;
+        if r.armed {
+            r.tape.push((TAPE_D, raw.to_bits()));
+        }
+    });
+}
+
+/// Read-only copy of a machine's runtime state.
+#[derive(Debug, Clone, PartialEq)]
+pub struct MachineSnapshot<D> {
+    pub current_state: usize,
+    pub state_limit: u64,
+    pub padding_sent: u64,
+    pub normal_sent: u64,
+    pub blocking_duration: D,
+    pub allowed_blocked_microsec: D,
+    pub counter_a: u64,
+    pub counter_b: u64,
+    pub counter_zeroed_once: (bool, bool),
+}
+
+/// Read-only copy of the framework's runtime state.
+#[derive(Debug, Clone, PartialEq)]
+pub struct Snapshot<T, D> {
+    pub current_time: T,
+    pub framework_start: T,
+    pub machines: Vec<MachineSnapshot<D>>,
+    pub normal_sent_packets: u64,
+    pub padding_sent_packets: u64,
+    pub blocking_duration: D,
+    pub blocking_started: T,
+    pub blocking_active: bool,
+    /// 0: none, 1: all, 2 + mi: all except mi
+    pub signal_pending: u64,
+    /// which action slots are currently filled
+    pub actions_set: Vec<bool>,
+}
